@@ -45,10 +45,6 @@ const (
 
 	// Default ranked field cache
 	DefaultCacheSize = 50000
-
-	bitsPerWord = 32 << (^uint(0) >> 63) // either 32 or 64
-	maxInt      = 1<<(bitsPerWord-1) - 1 // either 1<<31 - 1 or 1<<63 - 1
-
 )
 
 // Field types.
@@ -942,70 +938,34 @@ func (f *Field) ClearBit(rowID, colID uint64) (changed bool, err error) {
 	if len(f.viewMap) == 1 { // assuming no time views
 		return changed, nil
 	}
-	lastViewNameSize := 0
-	level := 0
-	skipAbove := maxInt
-	for _, view := range f.allTimeViewsSortedByQuantum() {
-		if lastViewNameSize < len(view.name) {
-			level++
-		} else if lastViewNameSize > len(view.name) {
-			level--
+
+	// Clear the bit in every time view. The same row/column can have been
+	// set with any number of timestamps, and each of them wrote one view per
+	// unit of the quantum, so any time view may hold the bit.
+	for _, view := range f.timeViews() {
+		if v, err := view.clearBit(rowID, colID); err != nil {
+			return changed, errors.Wrapf(err, "clearing on view %s", view.name)
+		} else if v {
+			changed = true
 		}
-		if level < skipAbove {
-			if changed, err = view.clearBit(rowID, colID); err != nil {
-				return changed, errors.Wrapf(err, "clearing on view %s", view.name)
-			}
-			if !changed {
-				skipAbove = level + 1
-			} else {
-				skipAbove = maxInt
-			}
-		}
-		lastViewNameSize = len(view.name)
 	}
 
 	return changed, nil
 }
 
-func groupCompare(a, b string, offset int) (lt, eq bool) {
-	if len(a) > offset {
-		a = a[:offset]
-	}
-	if len(b) > offset {
-		b = b[:offset]
-	}
-	v := strings.Compare(a, b)
-	return v < 0, v == 0
-}
+// timeViews returns the time views of the field (standard_YYYY[MM[DD[HH]]]).
+func (f *Field) timeViews() []*view {
+	f.mu.RLock()
+	defer f.mu.RUnlock()
 
-func (f *Field) allTimeViewsSortedByQuantum() (me []*view) {
-	me = make([]*view, len(f.viewMap))
 	prefix := viewStandard + "_"
-	offset := len(viewStandard) + 1
-	i := 0
+	other := make([]*view, 0, len(f.viewMap))
 	for _, v := range f.viewMap {
-		if len(v.name) > offset && strings.Compare(v.name[:offset], prefix) == 0 { // skip non-time views
-			me[i] = v
-			i++
+		if strings.HasPrefix(v.name, prefix) {
+			other = append(other, v)
 		}
 	}
-	me = me[:i]
-	year := strings.Index(me[0].name, "_") + 4
-	month := year + 2
-	day := month + 2
-	sort.Slice(me, func(i, j int) (lt bool) {
-		var eq bool
-		// group by quantum from year to hour
-		if lt, eq = groupCompare(me[i].name, me[j].name, year); eq {
-			if lt, eq = groupCompare(me[i].name, me[j].name, month); eq {
-				if lt, eq = groupCompare(me[i].name, me[j].name, day); eq {
-					lt = strings.Compare(me[i].name, me[j].name) > 0
-				}
-			}
-		}
-		return lt
-	})
-	return me
+	return other
 }
 
 // Value reads a field value for a column.
